@@ -15,8 +15,8 @@
 (* q = 99995 / 999950 / 9999500, the hand-over to the next prefix is q = 99995000    *)
 (* (999.95, decimal) resp. 102394880 (1023.9488 = .99995*1024, binary).              *)
 (*                                                                                  *)
-(* Function-style family: every input is an initial state, nothing moves, the        *)
-(* invariants compare                                                               *)
+(* Function-style family: every input is one state (a leaf below root -> bucket),     *)
+(* nothing else moves, the invariants compare                                        *)
 (*   - a DECLARATIVE contract taken from the property statement (Accept, DeclBinary, *)
 (*     DeclMin) with                                                                 *)
 (*   - an OPERATIONAL transcription of what the code does (OpScale = the threshold   *)
@@ -27,8 +27,8 @@
 (* the outcome on float64 depends on the sub-ulp representation of the value.  The   *)
 (* contract is therefore evaluated twice, rounding ties up and down; a grid point is *)
 (* a Boundary point iff the two evaluations accept different (prefix, decimals).     *)
-(* Those are exactly the thresholds of scale.go (lemma BoundaryIsThreshold); the     *)
-(* replay treats them as "either side is fine".                                      *)
+(* Where a prefix is in range those are exactly the thresholds of scale.go (lemma    *)
+(* BoundaryIsThreshold); the replay treats them as "either side is fine".            *)
 EXTENDS Integers, Sequences, FiniteSets, TLC
 
 CONSTANTS
@@ -49,7 +49,7 @@ vars == <<x>>
 Base(cls) == IF cls = "dec" THEN 1000 ELSE 1024
 KMin(cls) == IF cls = "dec" THEN 0 - 3 ELSE 0
 KMax      == 4
-Prefixes(cls) == KMin(cls)..KMax
+PrefixIdx(cls) == KMin(cls)..KMax
 QMax   == 110000000   \* every q is below this
 QSmall == 110000      \* q * Base fits comfortably below this
 DMax   == 12          \* decimals considered by the contract
@@ -115,17 +115,31 @@ Nice4P(cls, D, d) == d \in 0..3 /\ InBand(cls, D, d) /\ NumDig(D) = 4
 \* neighbouring prefixes qualify
 Cand(y) ==
   IF y.s # 0 THEN {}
-  ELSE {p \in ({y.k - 1, y.k, y.k + 1} \cap Prefixes(y.cls)) \X (0..3) :
+  ELSE {p \in ({y.k - 1, y.k, y.k + 1} \cap PrefixIdx(y.cls)) \X (0..3) :
           p[1] = y.k - 1 => y.q <= QSmall}
 
 NiceSet(y, up)  == {p \in Cand(y) : NiceP(y.cls, Dig(y, p[1], p[2], up).n, p[2])}
 Nice4Set(y, up) == {p \in Cand(y) : Nice4P(y.cls, Dig(y, p[1], p[2], up).n, p[2])}
 
-(* "Prefix boundaries coincide exactly with how the mantissa rounds": among the      *)
-(* representations that print in range, the one with the finest last digit is used;   *)
-(* the next prefix takes over exactly when the finer one would print Base             *)
-(* (999.95 -> 1.000k, not 1000.0 and not 0.9999k; 999.94 -> 999.9, not 1.000k).       *)
+(* "Prefix boundaries coincide exactly with how the mantissa rounds, so 999.95 prints  *)
+(* as 1.000k and never as 1000.0 or 0.9999k".  Two rules for the hand-over to the    *)
+(* next prefix follow from that sentence:                                            *)
+(*   A  never "1000.0": stay with the finest in-range form until it would print Base  *)
+(*      (999.94 -> 999.9, not 1.000k);                                                *)
+(*   B  never "0.9999k": take the next prefix as soon as its mantissa, rounded to     *)
+(*      four digits, is 1.000.                                                        *)
+(* For decimal units both are the same point (999.95 = .99995k; lemma                 *)
+(* DecimalHandOverUnique).  For binary units B (.99995 * 1024 = 1023.9488) comes      *)
+(* slightly before A (1023.95); in between "1023.9Ki" and "1.000Mi" both satisfy      *)
+(* every clause of the statement, so both are accepted there.                         *)
 Best(S) == CHOOSE p \in S : \A r \in S : p[1] < r[1] \/ (p[1] = r[1] /\ p[2] >= r[2])
+
+BOf(y, up, N) ==      \* N = NiceSet(y, up), non-empty
+  LET a == Best(N)
+      p == <<a[1] + 1, 3>>
+  IN IF p \in N /\ Dig(y, p[1], 4, up).n >= 10000 THEN p ELSE a
+AChoice(y, up) == Best(NiceSet(y, up))
+BChoice(y, up) == BOf(y, up, NiceSet(y, up))
 
 (* Outside the range of the prefixes (below 1 smallest prefix, or where even the      *)
 (* largest prefix would print Base) the statement only asks for at least three        *)
@@ -136,9 +150,11 @@ Outside(y, up) == {<<y.k, d>> : d \in {dd \in 0..DMax : MustSig3(y) => Sig(Dig(y
 Determined(y, up) == InRange(y) /\ NiceSet(y, up) # {}
 
 Accept(y, up) ==
-  IF Determined(y, up)
-  THEN {Best(NiceSet(y, up))} \cup (IF Nice4Set(y, up) # {} THEN {Best(Nice4Set(y, up))} ELSE {})
-  ELSE Outside(y, up)
+  LET N  == NiceSet(y, up)
+      N4 == Nice4Set(y, up)
+  IN IF InRange(y) /\ N # {}
+     THEN {Best(N), BOf(y, up, N)} \cup (IF N4 # {} THEN {Best(N4)} ELSE {})
+     ELSE Outside(y, up)
 
 Boundary(y) == y.q # 0 /\ Accept(y, TRUE) # Accept(y, FALSE)
 
@@ -190,7 +206,7 @@ ZeroVal == Val(0, 0, 0, FALSE)
 \* pool values are in normal form (mantissa in [1, Base) resp. [1, 10) on a sub level)
 IsNF(cls, a) ==
   \/ a = ZeroVal
-  \/ a.s = 0 /\ a.k \in Prefixes(cls) /\ a.q >= 100000 /\ a.q < 100000 * Base(cls)
+  \/ a.s = 0 /\ a.k \in PrefixIdx(cls) /\ a.q >= 100000 /\ a.q < 100000 * Base(cls)
   \/ a.s \in 1..8 /\ a.k = KMin(cls) /\ a.q >= 100000 /\ a.q < 1000000
 
 \* |a| < |b| for non-zero normal forms
@@ -309,31 +325,57 @@ ThrBin == {99995, 999950, 9999500, 99995000, 99950,
 Thr(cls) == IF cls = "dec" THEN ThrDec ELSE ThrBin
 
 MainQ(cls) == (UNION {Window(t) : t \in Thr(cls)}) \cup ExtraQ
-SubQ       == Window(99995) \cup Window(999950) \cup {q \in Window(100000) : q >= 100000} \cup SubExtraQ
+\* sub levels only carry magnitudes below one smallest prefix (q < 10^6 at s >= 1)
+SubQ       == {q \in Window(99995) \cup Window(999950) \cup {qq \in Window(100000) : qq >= 100000} : q < 1000000}
+              \cup SubExtraQ
 
-Case(kind, cls, k, s, q, idx, u) ==
-  [kind |-> kind, cls |-> cls, k |-> k, s |-> s, q |-> q, idx |-> idx, u |-> u]
+Case(kind, b, cls, k, s, q, idx, u) ==
+  [kind |-> kind, b |-> b, cls |-> cls, k |-> k, s |-> s, q |-> q, idx |-> idx, u |-> u]
 
-ValCase(cls, k, s, q) == Case("val", cls, k, s, q, <<>>, <<>>)
-CommonCase(cls, idx)  == Case("common", cls, 0, 0, 0, idx, <<>>)
-UnitCase(u)           == Case("unit", "dec", 0, 0, 0, <<>>, u)
+ValCase(cls, k, s, q) == Case("val", "", cls, k, s, q, <<>>, <<>>)
+CommonCase(cls, idx)  == Case("common", "", cls, 0, 0, 0, idx, <<>>)
+UnitCase(u)           == Case("unit", "", "dec", 0, 0, 0, <<>>, u)
 
 ASSUME W \in 0..900
 ASSUME \A q \in ExtraQ : q \in 1000..(QMax - 1)
 ASSUME \A q \in SubExtraQ : q \in 100000..999999
 
-InitVal ==
-  \E cls \in {"dec", "bin"} :
-    \/ \E k \in Prefixes(cls) : \E q \in MainQ(cls) : x = ValCase(cls, k, 0, q)
-    \/ \E s \in 1..8 : \E q \in SubQ : x = ValCase(cls, KMin(cls), s, q)
-    \/ x = ValCase(cls, 0, 0, 0)
-InitCommon ==
-  \E cls \in {"dec", "bin"} : \E m \in 0..SeqMax : \E idx \in [1..m -> 1..PoolN] : x = CommonCase(cls, idx)
-InitUnit ==
-  \E m \in 0..MaxUnitLen : \E u \in [1..m -> UnitAlpha] : x = UnitCase(u)
+(* Every input is a leaf of a three-level tree  root -> bucket -> input,  so that TLC's  *)
+(* workers evaluate the invariants of different buckets in parallel (initial states      *)
+(* would all be handled by one thread).  Nothing else moves.                             *)
+Root == Case("root", "", "dec", 0, 0, 0, <<>>, <<>>)
+ValBucket(cls, k, s)   == Case("bucket", "val", cls, k, s, 0, <<>>, <<>>)
+CommonBucket(cls, idx) == Case("bucket", "common", cls, 0, 0, 0, idx, <<>>)
+UnitBucket(u)          == Case("bucket", "unit", "dec", 0, 0, 0, <<>>, u)
 
-Init == InitVal \/ InitCommon \/ InitUnit
-Next == UNCHANGED x
+QSet(cls, k, s) == IF s = 0 THEN MainQ(cls) \cup (IF k = 0 THEN {0} ELSE {}) ELSE SubQ
+
+ValBuckets ==
+  {ValBucket(cls, k, 0) : cls \in {"dec"}, k \in PrefixIdx("dec")}
+  \cup {ValBucket(cls, k, 0) : cls \in {"bin"}, k \in PrefixIdx("bin")}
+  \cup {ValBucket(cls, KMin(cls), s) : cls \in {"dec", "bin"}, s \in 1..8}
+CommonBuckets ==
+  {CommonBucket(cls, idx) : cls \in {"dec", "bin"}, idx \in {<<>>} \cup {<<i>> : i \in 1..PoolN}}
+UnitPrefixLen == IF MaxUnitLen < 2 THEN MaxUnitLen ELSE 2
+UnitBuckets == {UnitBucket(u) : u \in [1..UnitPrefixLen -> UnitAlpha]}
+
+FromRoot ==
+  \/ x' \in ValBuckets \cup CommonBuckets \cup UnitBuckets
+  \/ \E m \in 0..(UnitPrefixLen - 1) : \E u \in [1..m -> UnitAlpha] : x' = UnitCase(u)
+
+FromValBucket == \E q \in QSet(x.cls, x.k, x.s) : x' = ValCase(x.cls, x.k, x.s, q)
+FromCommonBucket ==
+  IF x.idx = <<>> THEN x' = CommonCase(x.cls, <<>>)
+  ELSE \E m \in 0..(SeqMax - 1) : \E rest \in [1..m -> 1..PoolN] : x' = CommonCase(x.cls, x.idx \o rest)
+FromUnitBucket ==
+  \E m \in 0..(MaxUnitLen - UnitPrefixLen) : \E rest \in [1..m -> UnitAlpha] : x' = UnitCase(x.u \o rest)
+
+Init == x = Root
+Next ==
+  IF x.kind = "root" THEN FromRoot
+  ELSE IF x.kind = "bucket"
+  THEN (IF x.b = "val" THEN FromValBucket ELSE IF x.b = "common" THEN FromCommonBucket ELSE FromUnitBucket)
+  ELSE FALSE
 Spec == Init /\ [][Next]_vars
 
 (***************************************************************************)
@@ -344,18 +386,28 @@ IsCommon == x.kind = "common"
 IsUnit   == x.kind = "unit"
 
 TypeOK ==
-  /\ x.kind \in {"val", "common", "unit"}
+  /\ x.kind \in {"root", "bucket", "val", "common", "unit"}
   /\ x.cls \in {"dec", "bin"}
-  /\ IsVal => /\ x.k \in Prefixes(x.cls) /\ x.s \in 0..8
+  /\ IsVal => /\ x.k \in PrefixIdx(x.cls) /\ x.s \in 0..8
               /\ (x.q = 0 \/ x.q \in 1000..(QMax - 1))
               /\ (x.s > 0 => x.k = KMin(x.cls) /\ x.q < 1000000)
 
 \* the code's choice is one the statement allows (ties resolved upwards, as >= does)
 ScaleOpInDecl == IsVal /\ x.q # 0 => OpScale(x) \in Accept(x, TRUE)
 
-\* ... and wherever a prefix is in range it is THE finest in-range four-digit form:
-\* declarative = operational in prefix index and number of decimals
-ScaleDeclEqOp == IsVal /\ x.q # 0 /\ Determined(x, TRUE) => OpScale(x) = Best(NiceSet(x, TRUE))
+\* ... and wherever a prefix is in range, declarative = operational in prefix index and
+\* number of decimals: the code follows rule B, which for decimal units is rule A as well
+ScaleDeclEqOp == IsVal /\ x.q # 0 /\ Determined(x, TRUE) => OpScale(x) = BChoice(x, TRUE)
+DecimalHandOverUnique ==
+  IsVal /\ x.q # 0 /\ x.cls = "dec" /\ Determined(x, TRUE) =>
+    /\ AChoice(x, TRUE) = BChoice(x, TRUE) /\ AChoice(x, FALSE) = BChoice(x, FALSE)
+    /\ Accept(x, TRUE) = {AChoice(x, TRUE)}
+\* binary: the two rules differ exactly on [1023.9488, 1023.95)
+BinaryHandOverBand ==
+  IsVal /\ x.q # 0 /\ x.cls = "bin" /\ Determined(x, TRUE) =>
+    (AChoice(x, TRUE) # BChoice(x, TRUE)) =
+       \/ x.s = 0 /\ x.q >= 102394880 /\ x.q < 102395000 /\ x.k < KMax
+       \/ x.s = 0 /\ x.q = 99995 /\ x.k > 0       \* the same band seen from the upper prefix
 
 \* four significant digits (five only for binary mantissas printed in [1000, 1024))
 ScaleFourDigits ==
@@ -379,14 +431,20 @@ OutsideIsEdge ==
     \/ x.k = KMin(x.cls) /\ ~AtLeastUnit(x)
     \/ x.k = KMax /\ x.q >= (IF x.cls = "dec" THEN 99995000 ELSE 102394880)
 
-\* tie-sensitive grid points are exactly the code's thresholds (plus, for binary, the two
-\* points where only the literal four-digit reading flips: 999.95 and 1023.5)
+\* tie-sensitive grid points are exactly the code's thresholds (plus, for binary, the
+\* points where only the literal four-digit reading or rule A flips: 999.95, 1023.5, 1023.95)
 CodeThreshold(y) ==
   \/ y.s = 0 /\ y.q \in {99995, 999950, 9999500}
   \/ y.s = 0 /\ y.q = 99995 * Base(y.cls)
-  \/ y.s = 0 /\ y.cls = "bin" /\ y.q \in {99995000, 102350000}
+  \/ y.s = 0 /\ y.cls = "bin" /\ y.q \in {99995000, 102350000, 102395000}
   \/ y.s > 0 /\ y.q \in {99995, 999950}
-BoundaryIsThreshold == IsVal /\ Boundary(x) => CodeThreshold(x)
+\* Outside the range a further kind of tie-sensitive point exists (a coarse precision d at
+\* which the mantissa is exactly 99.5 units: three digits or two); the code never picks
+\* such a d.  Away from the listed thresholds the code's answer does not hinge on a tie.
+BoundaryIsThreshold ==
+  IsVal /\ Boundary(x) /\ ~CodeThreshold(x) =>
+    /\ ~Determined(x, TRUE) /\ ~Determined(x, FALSE)
+    /\ OpScale(x) \in (Accept(x, TRUE) \cap Accept(x, FALSE))
 
 \* the contract never accepts nothing
 AcceptNonEmpty == IsVal /\ x.q # 0 => Accept(x, TRUE) # {} /\ Accept(x, FALSE) # {}
